@@ -1,5 +1,6 @@
 import MirVerif.Model.Footprint
 import MirVerif.Model.FootprintAllowed
+import MirVerif.Model.FootprintPages
 /-! line-protocol driver for property C18 (`mirdrv_c18`).
 
 `mirdrv_c18 allowed`   prints the hand-maintained classification:
@@ -15,6 +16,12 @@ import MirVerif.Model.FootprintAllowed
         SHARED unchanged=<0|1>
         END
     reset                                            forget the trace
+    pages <pagesize> <ctx>                           start the code-allocator event sequence of a context
+      m <lo> <n> | u <lo> <n> | w <lo> <n>           mem_map / mem_unmap / mem_protect on pages lo..lo+n-1
+      p <addr> <len>                                 a _MIR_change_code/_MIR_update_code call (byte range)
+    endpages                                         run `Footprint.monitor`, print
+        PAGES <ctx> events=<k> reqs=<r> bad=<b> patches=<p> patchbad=<q> boundary=<e> [firstbad=idx:lo:n]
+              [firstpatchbad=idx:lo:n:explo:expn]
 -/
 open MirVerif.Footprint
 
@@ -82,25 +89,59 @@ def evalTrace (es : List Ent) : List String :=
   let unch := snapshot fullMem sh == snapshot m0 sh
   [hyp] ++ thr ++ [s!"SHARED unchanged={if unch then 1 else 0}", "END"]
 
-partial def loop (h : IO.FS.Stream) (es : List Ent) : IO Unit := do
+def parseCa (ws : List String) : Option CaEv :=
+  match ws with
+  | [k, a, b] =>
+    match a.toNat?, b.toNat? with
+    | some a, some b =>
+      if k == "m" then some (.map a b) else if k == "u" then some (.unmap a b)
+      else if k == "w" then some (.protect a b) else if k == "p" then some (.patch a b) else none
+    | _, _ => none
+  | _ => none
+
+def pagesReport (page id : Nat) (evs : List CaEv) : String :=
+  let r := monitor page evs
+  let fb := match r.bad with | (i, lo, n) :: _ => s!" firstbad={i}:{lo}:{n}" | [] => ""
+  let fp := match r.patchBad with
+    | (i, lo, n, elo, en) :: _ => s!" firstpatchbad={i}:{lo}:{n}:{elo}:{en}" | [] => ""
+  s!"PAGES {id} events={evs.length} reqs={r.reqs} bad={r.bad.length} patches={r.patches} patchbad={r.patchBad.length} boundary={r.boundary}{fb}{fp}"
+
+structure DState where
+  es : List Ent := []
+  pg : Option (Nat × Nat) := none
+  ca : List CaEv := []
+
+partial def loop (h : IO.FS.Stream) (st : DState) : IO Unit := do
   let line ← h.getLine
   if line.isEmpty then return ()
   let ws := (line.trimAscii.toString.splitOn " ").filter (· != "")
-  match ws with
-  | [] => loop h es
-  | ["reset"] => loop h []
-  | ["run"] =>
-    for s in evalTrace es.reverse do IO.println s
+  match st.pg, ws with
+  | _, [] => loop h st
+  | some (page, id), ["endpages"] =>
+    IO.println (pagesReport page id st.ca.reverse)
     (← IO.getStdout).flush
-    loop h es
-  | _ =>
+    loop h { st with pg := none, ca := [] }
+  | some _, _ =>
+    match parseCa ws with
+    | some e => loop h { st with ca := e :: st.ca }
+    | none => IO.println s!"ERR cannot parse: {line.trimAscii}"; loop h st
+  | none, ["pages", a, b] =>
+    match a.toNat?, b.toNat? with
+    | some a, some b => loop h { st with pg := some (a, b), ca := [] }
+    | _, _ => IO.println s!"ERR cannot parse: {line.trimAscii}"; loop h st
+  | none, ["reset"] => loop h { st with es := [] }
+  | none, ["run"] =>
+    for s in evalTrace st.es.reverse do IO.println s
+    (← IO.getStdout).flush
+    loop h st
+  | none, _ =>
     match parseOp ws with
-    | some e => loop h (e :: es)
-    | none => IO.println s!"ERR cannot parse: {line.trimAscii}"; loop h es
+    | some e => loop h { st with es := e :: st.es }
+    | none => IO.println s!"ERR cannot parse: {line.trimAscii}"; loop h st
 
 def main (args : List String) : IO Unit := do
   if args == ["allowed"] then
     for (f, o) in knownFindings do IO.println s!"KNOWN {f} {o}"
     for (f, o, fn, k) in reviewedEscapes do IO.println s!"REVIEWED {f} {o} {fn} {k}"
   else
-    loop (← IO.getStdin) []
+    loop (← IO.getStdin) {}
